@@ -1,6 +1,6 @@
 (* Command dispatcher of the extracted engine. *)
 From Zorg Require Import Base.PyStr Base.Sexp Base.Res.
-From Zorg Require Import Model.FileGroups Model.Zid.
+From Zorg Require Import Model.FileGroups Model.Zid Model.Rename.
 
 Definition commands : list (str * (list sexp -> sexp)) :=
   [ (S "expand", cmd_expand)
@@ -9,6 +9,8 @@ Definition commands : list (str * (list sexp -> sexp)) :=
   ; (S "zid_hist", cmd_zid_hist)
   ; (S "is_zid", cmd_is_zid)
   ; (S "zid_chars", cmd_zid_chars)
+  ; (S "rename_text", cmd_rename_text)
+  ; (S "rename_dir", cmd_rename_dir)
   ].
 
 Fixpoint find_cmd (n : str) (l : list (str * (list sexp -> sexp))) : option (list sexp -> sexp) :=
